@@ -123,7 +123,7 @@ def is_library_domain_error(ex):
     return isinstance(ex, e.Error)
 
 
-def weight_matrix(opf, nodes=None):
+def weight_matrix(opf, nodes=None, rows=None):
     """W[p][q] exactly as the model obtains arc weights (metric on copies in the code's argument order, or
     the pre-computed matrix indexed by Node.idx)."""
     nodes = opf.subgraph.nodes if nodes is None else nodes
@@ -136,7 +136,9 @@ def weight_matrix(opf, nodes=None):
                 W[p, q] = D[nodes[p].idx][nodes[q].idx]
         return W
     fn = opf.distance_fn
-    feats = [np.array(nd.features, dtype=float, copy=True) for nd in nodes]
+    # `rows`: the caller's own feature rows (what was handed to fit), so that a model which alters the features it stores
+    # (cast, rounding, clipping) is judged against the data it was given, not against its altered copy
+    feats = [np.array(r, copy=True) for r in rows] if rows is not None else [np.array(nd.features, copy=True) for nd in nodes]
     for p in range(n):
         for q in range(n):
             if p != q:
